@@ -28,7 +28,13 @@ The workbooks also hold references to the formula cell's own coordinate on the
 other sheet (Sheet2!H3 = Sheet1!H3*2, =SUM(Sheet1!H3:H4), with ROW()/COLUMN()
 without argument nearby); a second stream (build_unbounded_workbook) puts a
 whole-column / whole-row reference next to the explicit range it stands for,
-either one compiled first."""
+either one compiled first; a third (build_broken_workbook) puts one or two formulas that can NOT be compiled
+(external-workbook link, missing sheet, unknown table, unbalanced parentheses, relative R1C1) among ordinary ones, the
+caller carries on after each error (try/except, or validate_calcs first) and the clauses are judged on every formula
+cell that did evaluate; a fourth (build_table_workbook) has openpyxl Tables with calculated columns (ONE formula text
+with "this row" structured references in every row) and defined names, under the same sheet / table names at other
+coordinates in every workbook of the run.  Reads made by a graph build nested in an evaluation are the build's, not
+the formula's."""
 import logging
 import re
 
@@ -397,6 +403,187 @@ def build_unbounded_workbook(rng):
     return wb, inputs, forms, order
 
 
+
+# ------------------------------------------------------------------ workbooks with formulas that can not be compiled
+@known_predicate('C04-queued-after-failed-build')
+def _queued_after_failed_build(case):
+    """A build that raised (one formula of the workbook can not be compiled) leaves the cells that were waiting to be
+    wired in graph_todos; a later evaluate of such a cell does not build the graph again (the cell is in cell_map),
+    so it is computed without its precedent -> dependant edges until some other, unbuilt address is evaluated.
+    Matched: a missing edge into / unreachable read of a cell that IS STILL in graph_todos (case['queued'])."""
+    return case.get('call') in ('edge', 'reach') and case.get('queued') is True
+
+
+BAD_KINDS = ('external', 'missing-sheet', 'unknown-table', 'syntax', 'relative-r1c1')
+
+
+def build_broken_workbook(rng):
+    """One or two sheets with a 3 x 3 input block; 5-10 ordinary formula cells in columns E-F (cells, ranges, chains
+    through earlier formula cells) and one or two formulas that can NOT be compiled: a link into another workbook
+    ([1]Other!A1), a sheet that does not exist, a table that does not exist, unbalanced parentheses, a relative R1C1
+    reference; ordinary formulas read them together with other formula cells (=E2+E5, =SUM(E1:E4)), so that when the
+    build fails ordinary cells are still waiting to be wired.
+    Returns (workbook, inputs, forms, order, kinds of the bad formulas)."""
+    import openpyxl
+    wb = openpyxl.Workbook()
+    wb.active.title = 'Sheet1'
+    sheets = ['Sheet1']
+    if rng.random() < 0.4:
+        wb.create_sheet('Sheet2')
+        sheets.append('Sheet2')
+    inputs, forms = {}, {}
+    for sh in sheets:
+        for r in range(1, 4):
+            for c in range(1, 4):
+                inputs[f'{sh}!{COLS[c - 1]}{r}'] = wb[sh][f'{COLS[c - 1]}{r}'] = rng.choice(
+                    [rng.randrange(1, 50), rng.randrange(1, 50), rng.randrange(1, 200) / 4])
+
+    def cell(home):
+        sh = rng.choice(sheets)
+        a = rng.choice(COLS) + str(rng.randrange(1, 4))
+        return a if sh == home and rng.random() < 0.7 else f'{sh}!{a}'
+
+    def rng_(home):
+        sh = rng.choice(sheets)
+        c1, c2 = sorted(rng.choice(range(3)) for _ in range(2))
+        r1, r2 = sorted(rng.sample(range(1, 4), 2))
+        a = f'{COLS[c1]}{r1}:{COLS[c2]}{r2}'
+        return a if sh == home and rng.random() < 0.7 else f'{sh}!{a}'
+
+    def bad(home, kind):
+        if kind == 'external':
+            return rng.choice([f'=[1]Other!A1+{cell(home)}', f'={cell(home)}*[1]Other!$B$2', '=SUM([2]Data!A1:A3)',
+                               "='[1]My Data'!C3+1", f'=IF({cell(home)}>0,{cell(home)},[1]Other!A1)'])
+        if kind == 'missing-sheet':
+            return rng.choice(['=NoSheet!A1+1', f'=SUM(Missing!A1:B2,{cell(home)})', f'={cell(home)}-NoSheet!$C$3',
+                               f'=IF({cell(home)}>0,{cell(home)},NoSheet!A1)', f'=NoSheet!B2+{cell(home)}'])
+        if kind == 'unknown-table':
+            return rng.choice(['=SUM(NoTable[qty])', f'=NoTable[[#This Row],[qty]]*{cell(home)}',
+                               f'={cell(home)}+SUM(Gone[[#Data],[price]])'])
+        if kind == 'syntax':
+            return rng.choice([f'=SUM({cell(home)}', f'=({cell(home)}+{cell(home)}))*2', f'=MAX({rng_(home)},'])
+        return rng.choice(['=RC[-1]*2', f'=R[-1]C+{cell(home)}'])
+
+    slots = [(sh, f'{col}{r}') for sh in sheets for col in 'EF' for r in range(1, 7)]
+    rng.shuffle(slots)
+    n = rng.randrange(6, 12)
+    slots = slots[:n]
+    nbad = rng.choice([1, 1, 2])
+    bad_at = set(rng.sample(range(0, n - 2), nbad))      # at least two cells come after a bad one
+    kinds, prev, bads = [], [], []
+    for i, (home, xy) in enumerate(slots):
+        addr = f'{home}!{xy}'
+        if i in bad_at:
+            kind = rng.choice(BAD_KINDS[:4] * 3 + BAD_KINDS[4:])
+            kinds.append(kind)
+            f = bad(home, kind)
+            bads.append(addr)
+        else:
+            k = rng.randrange(10)
+            good = [p for p in prev if p not in bads]
+            if bads and good and k < 3:
+                # the pattern that leaves an ordinary cell waiting: an ordinary formula cell and a bad one, read by
+                # one formula (the LIFO queue takes the bad one first)
+                a, b = rng.choice(good), rng.choice(bads)
+                f = rng.choice([f'={a}+{b}', f'=SUM({a},{cell(home)},{b})', f'={a}*2-{b}', f'={b}+{a}',
+                                f'=IF({a}>0,{b},{cell(home)})', f'=MAX({a},{rng.choice(good)},{b})'])
+            elif prev and k < 5:
+                f = rng.choice([f'={rng.choice(prev)}+{cell(home)}', f'={rng.choice(prev)}*2+{rng.choice(prev)}',
+                                f'=SUM({rng_(home)})-{rng.choice(prev)}'])
+            elif k == 5:
+                col = rng.choice('EF')
+                sh = rng.choice(sheets)
+                r1, r2 = sorted(rng.sample(range(1, 7), 2))
+                f = f'=SUM({sh}!{col}{r1}:{col}{r2})' if not (sh == home and col == xy[0] and r1 <= int(xy[1:]) <= r2) \
+                    else f'=SUM({rng_(home)})'
+            elif k == 6:
+                f = f'=SUM({rng_(home)})+{cell(home)}'
+            elif k == 7:
+                f = f'=MAX({rng_(home)})-MIN({rng_(home)},{cell(home)})'
+            elif k == 8:
+                f = f'=IF({cell(home)}>{rng.randrange(1, 50)},{cell(home)},{cell(home)})'
+            else:
+                f = f'={cell(home)}*2+{cell(home)}'
+        forms[addr] = wb[home][xy] = f
+        prev.append(addr)
+    order = list(forms)
+    rng.shuffle(order)
+    return wb, inputs, forms, order, kinds
+
+
+# ------------------------------------------------------------------ tables: one formula text, precedents per cell
+TABLE_OF = {'Sheet1': 'Orders', 'Sheet2': 'Costs'}
+
+
+def build_table_workbook(rng):
+    """One or two sheets, ALWAYS called Sheet1 / Sheet2, each with a table (Orders / Costs) whose position and
+    height differ from workbook to workbook: columns item, qty, price and one or two calculated columns — the SAME
+    formula text in every row, with "this row" structured references ([@qty], Orders[[#This Row],[qty]], [@[qty]]),
+    column references, mixed; beside the table cells reading table columns, the calculated cells and the defined
+    names total_range / one_cell, whose targets also differ per workbook.  The same (sheet name, formula text) thus
+    stands for other precedents in every row and in every workbook of the run.
+    Returns (workbook, inputs, forms, order, must)."""
+    import openpyxl
+    from openpyxl.utils import get_column_letter as L
+    from openpyxl.workbook.defined_name import DefinedName
+    from openpyxl.worksheet.table import Table, TableColumn
+    wb = openpyxl.Workbook()
+    wb.active.title = 'Sheet1'
+    sheets = ['Sheet1']
+    if rng.random() < 0.5:
+        wb.create_sheet('Sheet2')
+        sheets.append('Sheet2')
+    inputs, forms, must = {}, {}, []
+    geometry = {}
+    for sh in sheets:
+        ws = wb[sh]
+        name = TABLE_OF[sh]
+        r0, c0, nrows = rng.randrange(1, 4), rng.randrange(1, 3), rng.randrange(2, 5)
+        ncalc = rng.choice([1, 1, 2])
+        headers = ['item', 'qty', 'price'] + ['total', 'extra'][:ncalc]
+        geometry[sh] = (r0, c0, nrows, headers)
+        for j, h in enumerate(headers):
+            ws.cell(r0, c0 + j).value = h
+        texts = rng.sample([
+            f'={name}[[#This Row],[qty]]*{name}[[#This Row],[price]]', '=[@qty]*2', '=[@qty]+[@price]',
+            '=[@[qty]]*3', '=[[#This Row],[price]]+1', '=SUM([qty])-[@qty]', f'={name}[@price]-{name}[@qty]',
+            '=MAX([price])-[@price]', '=[@price]&[@item]', f'=SUM({name}[qty])+[@qty]', '=[@qty]*one_cell',
+            f'=IF([@qty]>5,[@price],{name}[[#This Row],[qty]])', '=SUM([[#This Row],[qty]:[price]])',
+        ], ncalc)
+        if ncalc == 2 and rng.random() < 0.5:
+            texts[1] = rng.choice(['=[@total]+[@qty]', f'={name}[[#This Row],[total]]*2', '=SUM([total])-[@total]'])
+        for i in range(1, nrows + 1):
+            ws.cell(r0 + i, c0).value = rng.choice('abcdef')
+            for j in (1, 2):
+                xy = f'{L(c0 + j)}{r0 + i}'
+                inputs[f'{sh}!{xy}'] = ws[xy] = rng.randrange(1, 10) if j == 1 else rng.randrange(11, 50)
+            for j, t in enumerate(texts):
+                xy = f'{L(c0 + 3 + j)}{r0 + i}'
+                forms[f'{sh}!{xy}'] = ws[xy] = t
+        t = Table(displayName=name, ref=f'{L(c0)}{r0}:{L(c0 + len(headers) - 1)}{r0 + nrows}')
+        t.tableColumns = [TableColumn(id=i, name=h) for i, h in enumerate(headers, start=1)]
+        ws.add_table(t)
+        must.append(f'{sh}!{L(c0 + 1)}{r0 + rng.randrange(1, nrows + 1)}')
+    sh0 = rng.choice(sheets)
+    r0, c0, nrows, headers = geometry[sh0]
+    wb.defined_names['total_range'] = DefinedName(
+        'total_range', attr_text=f'{sh0}!${L(c0 + 3)}${r0 + 1}:${L(c0 + 3)}${r0 + nrows}')
+    wb.defined_names['one_cell'] = DefinedName(
+        'one_cell', attr_text=f'{sh0}!${L(c0 + rng.choice([1, 2]))}${r0 + rng.randrange(1, nrows + 1)}')
+    # beside the tables: the same texts in every workbook, at the same coordinates
+    for sh in sheets:
+        other = rng.choice(sheets)
+        name = TABLE_OF[other]
+        texts = rng.sample([f'=SUM({name}[total])', f'=SUM({name}[qty])+one_cell', f'=INDEX({name}[price],2)',
+                            '=SUM(total_range)', '=one_cell*2', f'=MAX({name}[[qty]:[price]])',
+                            f'=COUNT({name}[[#All],[qty]])', f'=SUM({name}[[#Data],[price]])'], rng.randrange(2, 5))
+        for i, t in enumerate(texts, start=1):
+            forms[f'{sh}!J{i}'] = wb[sh][f'J{i}'] = t
+    order = list(forms)
+    rng.shuffle(order)
+    return wb, inputs, forms, order, must
+
+
 UNB_COLS = re.compile(r'(.+)!\$?([A-Z]+):\$?([A-Z]+)')
 UNB_ROWS = re.compile(r'(.+)!\$?(\d+):\$?(\d+)')
 CELL_RE = re.compile(r'(.+)!([A-Z]+)(\d+)')
@@ -454,12 +641,28 @@ def workbook_oracle(ctx):
     for wbi in range(ctx.n(150, 1500)):
         wb, inputs, forms, order = build_unbounded_workbook(rng)
         judge_workbook(ctx, ('u', wbi), wb, inputs, forms, order, rng.sample(sorted(inputs), min(4, len(inputs))))
+    # ---- one or two formulas that can not be compiled among ordinary ones; the caller carries on after the error
+    for wbi in range(ctx.n(120, 1200)):
+        wb, inputs, forms, order, kinds = build_broken_workbook(rng)
+        validate = rng.sample(order, min(len(order), rng.randrange(1, 4))) if wbi % 2 else ()
+        ctx.histogram['broken-workbook:' + '+'.join(sorted(kinds)) + (':validate_calcs' if validate else '')] = \
+            ctx.histogram.get('broken-workbook:' + '+'.join(sorted(kinds)) + (':validate_calcs' if validate else ''), 0) + 1
+        judge_workbook(ctx, ('b', wbi), wb, inputs, forms, order, rng.sample(sorted(inputs), 3), tolerant=True,
+                       validate=validate)
+    # ---- tables with calculated columns (one formula text, precedents per row), the same sheet and table names
+    #      at other coordinates in every workbook of the run
+    for wbi in range(ctx.n(100, 1000)):
+        wb, inputs, forms, order, must = build_table_workbook(rng)
+        judge_workbook(ctx, ('t', wbi), wb, inputs, forms, order, must)
 
 
-def judge_workbook(ctx, wbi, wb, inputs, forms, order, must=()):
+def judge_workbook(ctx, wbi, wb, inputs, forms, order, must=(), tolerant=False, validate=()):
     """The oracle clauses on one openpyxl workbook: inputs = {address: value or None (blank)} of the written input
     cells, forms = {address: formula text}, order = the order in which the formula cells are first evaluated
-    (compiled), must = inputs that are perturbed besides the sampled ones."""
+    (compiled), must = inputs that are perturbed besides the sampled ones.
+    tolerant: the workbook holds formulas that can not be compiled; the caller carries on after the error (every
+    evaluate in try/except; validate: addresses handed to validate_calcs first, which swallows the errors) and the
+    clauses are judged on every formula cell that DID evaluate (and on every range node)."""
     import networkx as nx
     from pycel.excelutil import ERROR_CODES, AddressRange
     rng = ctx.rng
@@ -468,21 +671,49 @@ def judge_workbook(ctx, wbi, wb, inputs, forms, order, must=()):
     # range reference being computed (its member reads)
     comp, trace = traced_compiler(wb)
     base = {}
+    if validate:
+        import contextlib
+        import io
+        try:
+            with contextlib.redirect_stdout(io.StringIO()):
+                comp.validate_calcs(output_addrs=list(validate))
+        except Exception as exc:       # noqa: BLE001
+            # (validate_calcs itself gives up on a formula whose text can not be compiled at all — unknown table,
+            #  relative R1C1: its error handler asks the cell for needed_addresses; not this property) — carry on
+            ctx.histogram['validate_calcs-raised:' + type(exc).__name__] = \
+                ctx.histogram.get('validate_calcs-raised:' + type(exc).__name__, 0) + 1
     for a in order:
         try:
             base[a] = ('ok', comp.evaluate(a))
         except Exception as exc:       # noqa: BLE001
             base[a] = ('raise', type(exc).__name__)
+    all_forms = forms
+    if tolerant:
+        failed = {a for a in forms if base[a][0] != 'ok'}
+        forms = {a: f for a, f in forms.items() if a not in failed}
+        for a in all_forms:
+            ctx.count(('broken-eval', wbi, a), kind='broken-workbook:' + ('evaluated' if a in forms else 'raised'))
+    else:
+        failed = set()
+
+    def queued(node):
+        """still waiting in graph_todos (a build that raised left it there)"""
+        return any(n is node for n in comp.graph_todos)
     # ---- 1. reads are declared
     for dep, read in trace:
         key = ('read', wbi, dep, read)
         ctx.count(key, kind='read:range' if ':' in read else 'read:cell',
                   sample=dict(formula_cell=dep, formula=forms.get(dep), read=read))
-        if dep is None or read in ERROR_CODES:
+        if dep is None or read in ERROR_CODES or dep in failed:
             continue
         dcell = comp.cell_map[dep]
-        needed = [p.address for p in dcell.needed_addresses]
-        case = dict(call='read', args=[forms.get(dep, dep), read], needed=needed)
+        try:
+            needed = [p.address for p in dcell.needed_addresses]
+        except Exception:      # noqa: BLE001
+            if tolerant:
+                continue
+            raise
+        case = dict(call='read', args=[forms.get(dep, dep), read], needed=needed, cell=dep)
         if read in needed:
             continue
         rc = cells_of(AddressRange, read)
@@ -502,10 +733,17 @@ def judge_workbook(ctx, wbi, wb, inputs, forms, order, must=()):
     # ---- 2. edges for declared precedents
     for a in list(comp.cell_map):
         c = comp.cell_map[a]
+        if a in failed:
+            continue            # did not evaluate: nothing is claimed for it
         try:
             needed = [p.address for p in c.needed_addresses]
         except Exception:      # noqa: BLE001
             continue
+        if tolerant and ':' in a.split('!')[-1]:
+            try:
+                comp.evaluate(a)
+            except Exception:      # noqa: BLE001
+                continue        # a range node with a member that can not be evaluated
         for p in needed:
             ctx.count(('edge', wbi, p, a), kind='edge')
             if p not in comp.cell_map or not comp.dep_graph.has_edge(comp.cell_map[p], c):
@@ -517,13 +755,13 @@ def judge_workbook(ctx, wbi, wb, inputs, forms, order, must=()):
                 twin = [n for n in comp.dep_graph.predecessors(c)
                         if n.address.address == p and n is not comp.cell_map.get(p)] if c in comp.dep_graph else []
                 ctx.violation(dict(call='edge', args=[forms.get(a, a), p], stood_for_by=stands, replaced_twin=bool(twin),
-                                   workbook=forms, order=list(order)),
+                                   workbook=all_forms, order=list(order), cell=a, queued=queued(c)),
                               "declared precedent without precedent -> dependant edge in dep_graph", impl=a, expected=p)
     # ---- 3. perturbing a non-ancestor never changes a value
     anc = {}
     for a in forms:
         node = comp.cell_map[a]
-        anc[a] = {n.address.address for n in nx.ancestors(comp.dep_graph, node)}
+        anc[a] = {n.address.address for n in nx.ancestors(comp.dep_graph, node)} if node in comp.dep_graph else set()
     # ---- 2b. every cell that the evaluation of a formula cell reads, directly or through the range nodes and
     #          unbounded-range references it reads, is an ancestor of the formula cell
     reads = {}
@@ -531,7 +769,7 @@ def judge_workbook(ctx, wbi, wb, inputs, forms, order, must=()):
         if read not in ERROR_CODES:
             reads.setdefault(dep, set()).add(read)
     for a in forms:
-        seen, todo = set(), [a]
+        seen, todo, via = set(), [a], {}
         while todo:
             x = todo.pop()
             nxt = set(reads.get(x, ()))
@@ -542,14 +780,24 @@ def judge_workbook(ctx, wbi, wb, inputs, forms, order, must=()):
             for r in nxt:
                 if r not in seen:
                     seen.add(r)
+                    via[r] = x
                     todo.append(r)
+        def readers(r):
+            """the cells and range nodes through which the evaluation of a came to read r (a itself included)"""
+            out = []
+            while r != a and r in via:
+                r = via[r]
+                if r in comp.cell_map:
+                    out.append(r)
+            return out
         for r in sorted(seen):
             if ':' in r.split('!')[-1]:
                 continue        # range nodes are the path, the cells are the claim
             ctx.count(('reach', wbi, a, r), kind='reach:' + ('blank-cell' if inputs.get(r, 0) is None else 'cell')
                       + (':unbounded' if unbounded(forms[a]) else ''))
             if r not in anc[a]:
-                ctx.violation(dict(call='reach', args=[forms[a], r], workbook=forms, blank=inputs.get(r, 0) is None),
+                ctx.violation(dict(call='reach', args=[forms[a], r], workbook=all_forms, blank=inputs.get(r, 0) is None,
+                                   cell=a, order=list(order), queued=any(queued(comp.cell_map[x]) for x in readers(r))),
                               "a cell read while the formula is evaluated (through the range nodes it reads) is "
                               "not an ancestor of the formula cell in dep_graph", impl=sorted(anc[a])[:40], expected=r)
     for x in list(must) + rng.sample(sorted(inputs), min(len(inputs), ctx.n(6, 18))):
@@ -588,13 +836,13 @@ def traced_compiler(owb):
     orig_e, orig_r = comp._evaluate, comp._evaluate_range
 
     def ev(addr):
-        if stack:
+        if stack and stack[-1] is not None:
             trace.append((stack[-1], str(addr)))
         return orig_e(addr)
 
     def evr(addr):
         addr = str(addr)
-        if stack and stack[-1] != addr:
+        if stack and stack[-1] is not None and stack[-1] != addr:
             trace.append((stack[-1], addr))
         if ':' not in addr.split('!')[-1]:
             # a range operation which produced a single cell (=A1:B3 B1:C1): the read, by the current reader, is
@@ -619,6 +867,17 @@ def traced_compiler(owb):
             stack.pop()
     assert comp._eval is None
     comp._eval = _eval
+    orig_g = comp._gen_graph
+
+    def gen_graph(seed, recursed=False):
+        # what a graph build computes (the values of new ranges — after a build that raised also of ranges and
+        # cells left waiting by that build) is not read by the formula cell whose evaluation triggered the build
+        stack.append(None)
+        try:
+            return orig_g(seed, recursed=recursed)
+        finally:
+            stack.pop()
+    comp._gen_graph = gen_graph
     return comp, trace
 
 
@@ -704,7 +963,13 @@ def run(ctx):
         "their OWN coordinate on the other sheet, with ROW()/COLUMN() without argument; every third workbook first "
         "evaluated in a shuffled order) and 150 workbooks with a whole-column / whole-row reference next to the "
         "explicit range it stands for (A:A <-> A1:A{max_row}, 2:2 <-> A2:{max_column}2; separate cells or one formula, "
-        "either order; random first-evaluation order); a case is non-trivial when it is a distinct formula text, (workbook, cell, read) triple, edge or "
+        "either order; random first-evaluation order), 120 workbooks with one or two formulas that can not be compiled "
+        "([1]Other!A1, missing sheet, unknown table, unbalanced parentheses, relative R1C1) among 5-10 ordinary ones "
+        "that read them next to other formula cells, every evaluate in try/except (every second workbook after "
+        "validate_calcs on 1-3 cells), clauses on the cells that evaluated, and 100 workbooks with tables Orders / "
+        "Costs on Sheet1 / Sheet2 at varying coordinates with 1-2 calculated columns (13 this-row / column templates, "
+        "same text in every row), cells beside them reading table columns and defined names with varying targets; "
+        "a case is non-trivial when it is a distinct formula text, (workbook, cell, read) triple, edge or "
         "(workbook, perturbed input, formula cell) triple; graph traces: PRNG single-sheet DAG workbooks of "
         "harness/wbgen.py (5-11 cells, ranges, nested ranges) x 6-12 evaluate/set_value operations, the set of "
         "(reader, read) pairs of every evaluate compared with Model/ReadTrace.v and checked against the generated "
